@@ -171,6 +171,7 @@ func (e *btpEnv) subjects() []*subject {
 			if err != nil {
 				panic(err)
 			}
+			ev.SkDebug = e.sk // optional field: must survive the copy
 			return ev
 		},
 		Copy: func(o any) any { return o.(*bootstrapping.Evaluator).ShallowCopy() }, Work: e.work}}
